@@ -701,8 +701,11 @@ def run_property(pid, tier, only=None, jobs=None):
             pid, o["name"], r["status"], "; ".join(r["messages"])[:500]))
     sys.stdout.flush()
 
-    write_evidence(pid, plan, tier, obls, results, known_hit, reported, broken,
-                   time.time() - t_start)
+    if only:
+        log("(--only given: evidence file not rewritten)")
+    else:
+        write_evidence(pid, plan, tier, obls, results, known_hit, reported, broken,
+                       time.time() - t_start)
     if reported:
         return 1
     if broken:
